@@ -8,12 +8,12 @@ CONSTANTS
   InitTok <- LInitTok
   InitRaw = {}
   SubOf <- LSub
-  HasLF0 = TRUE
+  HasLF0 = FALSE
   HasAT0 = FALSE
   Slack = 2
   FU = 32
   Ver = 1
-  MaxCalls = 5
+  MaxCalls = 6
   MCToks = {"t1"}
 SPECIFICATION MCFairSpec
 INVARIANT SlotType TableInv ProbeBounded TablesDisjointFromData NoDamage
